@@ -12,16 +12,24 @@ import vlib
 SPECDIR = os.path.join(vlib.ROOT, "specs", "Resolver")
 
 
-def gen_histories(ctx, module, cfg, out, workers=8, simulate=None, depth=None, timeout=600, prefix="g"):
-    """Run a generator module (EXTENDS EnvGen) and write one history per line to `out`."""
+def gen_histories(ctx, module, cfg, out, workers=8, simulate=None, depth=None, timeout=600, prefix="g", cap=None):
+    """Run a generator module (EXTENDS EnvGen) and write one history per line to `out`.
+    Simulation runs are time-boxed (TLC is stopped after `timeout`) and capped at `cap` histories by a seeded sample."""
     r = vlib.tlc(os.path.join(SPECDIR, module), cfg, workers=workers, simulate=simulate, depth=depth,
                  timeout=timeout, deadlock=False, seed=ctx.seed if simulate else None)
     if r.error or (r.rc != 0 and not simulate):
         raise vlib.MachineryError("generator %s/%s failed rc=%s\n%s" % (module, cfg, r.rc, r.out[-3000:]))
     seen = set()
     n = 0
+    lines = r.out.splitlines()
+    if cap is not None:
+        import random
+        cand = [l for l in lines if l.startswith('"{')]
+        if len(cand) > cap:
+            random.Random(ctx.seed).shuffle(cand)
+            lines = cand[:cap]
     with open(out, "w") as f:
-        for line in r.out.splitlines():
+        for line in lines:
             if not line.startswith('"{'):
                 continue
             try:
@@ -272,7 +280,9 @@ def engine_check(ctx, gens, facets, jobs=12, labels=None):
     for g in gens:
         hist = os.path.join(ctx.out, g["name"] + ".ndjson")
         n = gen_histories(ctx, g["module"], g["cfg"], hist, workers=8, simulate=g.get("simulate"),
-                          depth=g.get("depth"), prefix=g["name"], timeout=g.get("timeout", 900))
+                          depth=g.get("depth"), prefix=g["name"],
+                          timeout=g.get("timeout", 150 if g.get("simulate") else 900),
+                          cap=g.get("cap", 250000 if g.get("simulate") else None))
         ctx.log("generator %s/%s: %d histories" % (g["module"], g["cfg"], n))
         if n == 0:
             raise vlib.MachineryError("generator produced no histories")
